@@ -562,8 +562,12 @@ static PARAMETERIZED_GATE_MATRICES: Lazy<HashMap<String, ParameterizedMatrix>> =
         (
             "RZ".to_string(),
             (|theta: Complex64| {
+                let _i = imag!(1.0);
                 let t = theta / 2.0;
-                array![[t.cos(), -t.sin()], [t.sin(), t.cos()]]
+                array![
+                    [t.cos() - _i * t.sin(), real!(0.0)],
+                    [real!(0.0), t.cos() + _i * t.sin()]
+                ]
             }) as ParameterizedMatrix,
         ),
         (
@@ -609,7 +613,11 @@ static PARAMETERIZED_GATE_MATRICES: Lazy<HashMap<String, ParameterizedMatrix>> =
         (
             "PSWAP".to_string(),
             (|theta: Complex64| {
-                let (_0, _1, _c) = (real!(0.0), real!(1.0), theta.cos() + theta);
+                let (_0, _1, _c) = (
+                    real!(0.0),
+                    real!(1.0),
+                    theta.cos() + imag!(1.0) * theta.sin(),
+                );
                 array![
                     [_1, _0, _0, _0],
                     [_0, _0, _c, _0],
